@@ -41,6 +41,12 @@ func RunProperty(c *core.Ctx, prop string, plan Plan, crashIsViolation bool, ext
 			raceKeys[key]++
 			// a race on the memory of an event (its JSON tree) means two holders
 			// own one event object at the same time: C05
+			// the harness's own state dump (taken when a wedge is suspected) reads events
+			// without synchronisation, like file.d's debug endpoint does: not a holder
+			if strings.Contains(rr, "VerifDump") || strings.Contains(rr, "eventPool).dump") {
+				c.Count("race_reports_from_state_dump", 1)
+				continue
+			}
 			onEvent := strings.Contains(rr, "insane-json") || strings.Contains(rr, "pipeline.(*Event)")
 			if onEvent && prop == "C05" {
 				split := "no-split"
